@@ -200,6 +200,11 @@ func (c *curvePoint) Double(a *curvePoint, pool *bnPool) {
 	f := pool.Get().Mul(e, e)
 	f.Mod(f, p)
 
+	// c may alias a: read a.y and a.z before c.y is written.
+	t.Mul(a.y, a.z)
+	t.Mod(t, p)
+	c.z.Add(t, t)
+
 	t.Add(d, d)
 	c.x.Sub(f, t)
 
@@ -210,10 +215,6 @@ func (c *curvePoint) Double(a *curvePoint, pool *bnPool) {
 	t2.Mul(e, c.y)
 	t2.Mod(t2, p)
 	c.y.Sub(t2, t)
-
-	t.Mul(a.y, a.z)
-	t.Mod(t, p)
-	c.z.Add(t, t)
 
 	pool.Put(A)
 	pool.Put(B)
